@@ -128,8 +128,13 @@ package services
 //@   nopanic
 //@   requires s != nil && s.client != nil && req != nil && tables_wf()
 
+// C17: UpdateTopic changes the labels of the named live topic iff "labels" is in the mask, and nothing else.
 //@ func (*publisherServer).UpdateTopic(s, ctx, req) (resp, err)
-//@   property C16
+//@   property C16 C17
+//@   ensures mask_local_fixed: [C17] err == nil ==> (forall x Id :: {topics.name(x)} topic_unchanged(x) && topics.created_at(x) == old(topics.created_at(x)))
+//@   ensures mask_local_labels: [C17] err == nil && !(req.UpdateMask != nil && (exists k int :: 0 <= k && k < len(req.UpdateMask.Paths) && req.UpdateMask.Paths[k] == "labels")) ==> (forall x Id :: {topics.name(x)} topics.labels(x) == old(topics.labels(x)) && topics.labels$null(x) == old(topics.labels$null(x)))
+//@   ensures mask_local_rows: [C17] err == nil ==> (forall x Id :: {topics.name(x)} !(old(live_topic(x)) && old(topics.name(x)) == req.Topic.Name) ==> topics.labels(x) == old(topics.labels(x)) && topics.labels$null(x) == old(topics.labels$null(x)))
+//@   ensures mask_applied_labels: [C17] err == nil && (req.UpdateMask != nil && (exists k int :: 0 <= k && k < len(req.UpdateMask.Paths) && req.UpdateMask.Paths[k] == "labels")) ==> (forall x Id :: {topics.name(x)} live_topic(x) && topics.name(x) == req.Topic.Name ==> !topics.labels$null(x) && topics.labels(x) == req.Topic.Labels)
 //@   uses tables notifyspec
 //@   nopanic
 //@   requires s != nil && s.client != nil && req != nil && tables_wf()
@@ -201,6 +206,9 @@ package services
 //@   inline
 //@   loop 1
 //@     invariant req.Topic != nil && req != nil
+//@     invariant untouched: ub.topics.name$op(topicUpdate) == 0 && ub.topics.created_at$op(topicUpdate) == 0 && ub.topics.live$op(topicUpdate) == 0 && ub.topics.deleted_at$op(topicUpdate) == 0
+//@     invariant local_labels: ub.topics.labels$op(topicUpdate) != 0 ==> (exists k int :: req.UpdateMask != nil && 0 <= k && k <= idx && req.UpdateMask.Paths[k] == "labels")
+//@     invariant applied_labels: (exists k int :: req.UpdateMask != nil && 0 <= k && k <= idx && req.UpdateMask.Paths[k] == "labels") ==> ub.topics.labels$op(topicUpdate) == 1 && ub.topics.labels(topicUpdate) == req.Topic.Labels
 
 // C12: a page of ListTopics: every entry is a live resource of exactly the requested project, after the
 // page token; at most the effective page size; a next-page token (the id of the last entry) iff the page is full;
